@@ -10,6 +10,7 @@ import (
 	"os"
 	"path/filepath"
 	"sort"
+	"strings"
 	"testing"
 	"testing/cryptotest"
 	"testing/synctest"
@@ -273,3 +274,25 @@ func Tape(r *rand.Rand, n int, p float64) []uint32 {
 
 // Pick returns a random element.
 func Pick[T any](r *rand.Rand, xs ...T) T { return xs[r.IntN(len(xs))] }
+
+// PanicClass attributes a recovered panic: if the panicking frame (the first
+// frame below the runtime's panic machinery) is harness or shim code it is a
+// harness error, otherwise a panic in code under test (or its dependencies).
+func PanicClass(prop, stack string) string {
+	lines := strings.Split(stack, "\n")
+	seenPanic := false
+	for _, ln := range lines {
+		if strings.HasPrefix(ln, "panic(") {
+			seenPanic = true
+			continue
+		}
+		if !seenPanic || strings.HasPrefix(ln, "\t") || strings.HasPrefix(ln, "runtime.") || strings.HasPrefix(ln, "runtime/") {
+			continue
+		}
+		if strings.HasPrefix(ln, "verifsim/") || strings.HasPrefix(ln, "verifsim.") || strings.HasPrefix(ln, "simshim/") {
+			return "HARNESS/panic-in-harness"
+		}
+		return prop + "/panic"
+	}
+	return prop + "/panic"
+}
